@@ -1,11 +1,13 @@
 """C16 — extra steps.
 
 1. API surface (both tiers).  props/_surface_scan.py scans the source of the checkout under test
-   for every fallible function (name `try_*` or return type `Option<…>` / `Result<…>`; public
-   functions and trait-impl methods alike, every file).  props/c16_surface.json says for each of
+   for the PUBLIC fallible surface (name `try_*` or return type `Option<…>` / `Result<…>`; `pub
+   fn`s and the methods of trait impls / `pub trait`s, every file — private and `pub(crate)`
+   helpers are no API: renaming or splitting them is none of this check's business, they are only
+   counted).  props/c16_surface.json says for each of
    them whether C16's correspondence drives it (then the named input-distribution counters of
    this very run must be positive, `.valid` and `.invalid` ones alike), another property does,
-   it is a private helper modelled inside its public callers, or it is outside (not built / not
+   or it is outside (not built / not
    a failure-reporting API).  A scanned function missing from the registry — a new fallible API,
    or one more copy-pasted impl block — is reported as `no-failing-input-found`; so are a
    registry entry whose function is gone and a `driven` entry whose counters are zero.
@@ -26,7 +28,7 @@ import _surface_scan  # noqa: E402
 def surface(ctx):
     reg_path = os.path.join(ctx["root"], "props", "c16_surface.json")
     reg = json.load(open(reg_path))["functions"]
-    found = _surface_scan.scan(ctx["repo"])
+    found, private = _surface_scan.scan(ctx["repo"], with_private=True)
     keys = {e["key"]: e for e in found}
     stats = (ctx.get("corr") or {}).get("stats", {})
     violations = []
@@ -70,14 +72,15 @@ def surface(ctx):
         "fallible_functions_found": len(found), "public": sum(1 for e in found if e["public"]),
         "driven_by_C16": len(by_status.get("driven", [])),
         "driven_elsewhere": len(by_status.get("other", [])),
-        "private_modelled_in_callers": len(by_status.get("internal", [])),
+        "private_or_pub_crate_not_keyed": len(private),
         "outside": len(by_status.get("outside", [])),
         "new_unlisted": [e["key"] for e in new], "stale_entries": stale,
         "registered_driven_but_not_exercised": [f"{k} ({p})" for k, p, _ in undriven],
         "not_driven_by_C16": not_driven}}
-    ctx["log"](f"#stat C16 api-surface: {len(found)} fallible fns, {len(by_status.get('driven', []))} driven by C16, "
-               f"{len(by_status.get('other', []))} by other properties, {len(by_status.get('internal', []))} private, "
-               f"{len(by_status.get('outside', []))} outside; new={len(new)} stale={len(stale)} "
+    ctx["log"](f"#stat C16 api-surface: {len(found)} public fallible fns, {len(by_status.get('driven', []))} driven by C16, "
+               f"{len(by_status.get('other', []))} by other properties, "
+               f"{len(by_status.get('outside', []))} outside ({len(private)} private / pub(crate) ones are not part of "
+               f"the surface); new={len(new)} stale={len(stale)} "
                f"unexercised={len(undriven)}")
     return violations, cov
 
